@@ -796,6 +796,8 @@ class SuitBitfield(SuitObject):
         value = []
         bitsum = 0
         bitval = cls.deserialize_cbor(cbstr)
+        if not isinstance(bitval, int) or isinstance(bitval, bool):
+            raise ValueError(f"Unable to construct bit field from: {bitval}")
         for bit in range(cls._bit_length):
             bitmask = 1 << bit
             if bitval & bitmask:
